@@ -16,7 +16,7 @@ LEVEL = "exploration"
 EXHAUSTIVE = True
 RULE = ("random populations (2-7 instances of Person/Employee/Manager, Org/Dept, Chief roles; an eighth of the cases use value-equal but distinct VOrg / VPerson twins) and fact sets of 1-8 "
         "facts over {works_for, head_of, member_of, members, sub_org_of (transitive), wholly_owned_by (sub-property of "
-        "sub_org_of), under (the same transitive property declared on another class under another field name), part_of/has_part (transitive + inverse)} including chains, diamonds and cycles, asserted in a random order through a random write form "
+        "sub_org_of), chairs / attends (a role whose super-property lives on a subclass of the declared role taker type), under (the same transitive property declared on another class under another field name), part_of/has_part (transitive + inverse)} including chains, diamonds and cycles, asserted in a random order through a random write form "
         "(assignment, container assignment while empty, append, extend, insert, add, update); a bank of fixed fact sets "
         "(chains, diamond, cycles, role-taker chains) is run in ALL permutations (<=5 facts quick, <=6 thorough).  "
         "Non-trivial = the closure contains at least two derived facts beyond the asserted ones; distinct = (fact "
@@ -34,7 +34,7 @@ def plan(tier):
     return {"cases": 3000 if tier == "quick" else 100000, "shards": 16, "case_timeout": 60, "shard_timeout": 3000,
             "min_nontrivial": 100,
             "min_counters": {"facts_asserted": 8000, "derived_facts_checked": 8000, "permutation_cases": 500,
-                             "field:sub_org_of": 500, "field:head_of": 300, "field:part_of": 300, "field:under": 100}}
+                             "field:sub_org_of": 500, "field:head_of": 300, "field:part_of": 300, "field:under": 100, "field:chairs": 50}}
 
 
 def setup(ctx):
@@ -47,7 +47,8 @@ SET_FORMS = ["add", "add", "update", "assign_empty"]
 FIELD_KIND = {"works_for": ("person", "org", "single"), "head_of": ("chief", "org", "single"),
               "member_of": ("person", "org", "list"), "members": ("org", "member", "set"),
               "sub_org_of": ("org", "org", "list"), "part_of": ("org", "org", "list"), "has_part": ("org", "org", "list"),
-              "wholly_owned_by": ("org", "org", "list"), "under": ("unit", "org", "list")}
+              "wholly_owned_by": ("org", "org", "list"), "under": ("unit", "org", "list"),
+              "chairs": ("chair", "org", "single"), "attends": ("delegate", "org", "list")}
 
 
 def gen_population(rng):
@@ -61,6 +62,14 @@ def gen_population(rng):
         pop.append([f"c{i}", "Chief", rng.choice(persons)])
     for i in range(rng.choice([0, 0, 1, 2])):
         pop.append([f"u{i}", "Unit", None])
+    if rng.random() < 0.3:
+        # a role whose super-property lives on a subclass of the declared role taker type only
+        visitors = []
+        for i in range(rng.randint(1, 2)):
+            pop.append([f"v{i}", rng.choice(["Visitor", "Delegate", "Delegate"]), None])
+            visitors.append(f"v{i}")
+        for i in range(rng.randint(1, 2)):
+            pop.append([f"h{i}", "Chair", rng.choice(visitors)])
     return pop
 
 
@@ -73,6 +82,10 @@ def names_of(pop, kind):
         return [p[0] for p in pop if p[0].startswith("c")]
     if kind == "unit":
         return [p[0] for p in pop if p[0].startswith("u")]
+    if kind == "chair":
+        return [p[0] for p in pop if p[0].startswith("h")]
+    if kind == "delegate":
+        return [p[0] for p in pop if p[1] == "Delegate"]
     return [p[0] for p in pop if p[0][0] in "pc"]
 
 
@@ -147,6 +160,9 @@ BANK = [
     # one transitive property on two classes under different field names
     ([["u0", "Unit", None], ["o0", "Org", None], ["o1", "Dept", None], ["o2", "Org", None]],
      [["u0", "under", "o0"], ["o0", "sub_org_of", "o1"], ["o1", "wholly_owned_by", "o2"]]),
+    # the super-property of a role lives on a subclass of the declared role taker type
+    ([["v0", "Delegate", None], ["v1", "Visitor", None], ["o0", "Org", None], ["o1", "Org", None], ["h0", "Chair", "v0"], ["h1", "Chair", "v1"]],
+     [["h0", "chairs", "o0"], ["h1", "chairs", "o0"], ["v0", "attends", "o1"]]),
     # role taker chains and inverses
     ([["p0", "Person", None], ["o0", "Org", None], ["o1", "Org", None], ["c0", "Chief", "p0"]],
      [["c0", "head_of", "o0"], ["p0", "member_of", "o1"], ["o1", "members", "c0"], ["o0", "sub_org_of", "o1"]]),
@@ -176,6 +192,8 @@ def exhaustive(tier, ctx):
 
 def witnesses():
     return {
+        "role-taker-subclass-super-property": {"pop": [["v0", "Delegate", None], ["o0", "Org", None], ["h0", "Chair", "v0"]],
+                                               "facts": [["h0", "chairs", "o0", "assign"]]},
         "transitive-property-on-two-classes": {"pop": [["u0", "Unit", None], ["o0", "Org", None], ["o1", "Org", None]],
                                                "facts": [["o0", "sub_org_of", "o1", "append"], ["u0", "under", "o0", "append"]]},
     }
@@ -216,8 +234,12 @@ def run(spec, ctx):
     sg = SymbolGraph()
     named, kinds, taker = {}, {}, {}
     for name, cls, tk in spec["pop"]:
+        kinds[name] = cls
         if cls == "Chief":
             named[name] = om.Chief(named[tk])
+            taker[name] = tk
+        elif cls == "Chair":
+            named[name] = om.Chair(named[tk])
             taker[name] = tk
         elif cls in ("VOrg", "VPerson"):
             named[name] = om.ALL_CLASSES[cls](tk)          # the display name repeats: value-equal twins
